@@ -149,6 +149,11 @@ def run_send(seed, nthreads, per_thread, plan_kind, inbound, send_buffer, big=Fa
             n.sock.blocked_writes = rng.randint(1, 2)
         use_list = rng.random() < 0.3
 
+        # a retransmission: the same message object submitted a second time is one more submission
+        if rng.random() < 0.3:
+            t0 = rng.randrange(nthreads)
+            msgs[t0].append(msgs[t0][rng.randrange(len(msgs[t0]))])
+
         def submitter(t):
             if use_list and len(msgs[t]) > 1:
                 n.d.send_messages(msgs[t])
@@ -188,16 +193,23 @@ def run_send(seed, nthreads, per_thread, plan_kind, inbound, send_buffer, big=Fa
             if f not in flat:
                 problems.append(f"a {len(f)}-byte frame on the socket is not one of the submitted messages (torn / interleaved)")
                 break
-        for d in flat:
-            c = frames.count(d)
-            if c == 0:
-                problems.append(f"a submitted {len(d)}-byte message never reached the socket (lost); {len(sent)} of {total} bytes written")
+        for d in set(flat):
+            c, w = frames.count(d), flat.count(d)
+            if c < w:
+                problems.append(f"a {len(d)}-byte message submitted {w} time(s) reached the socket {c} time(s) (lost); {len(sent)} of {total} bytes written")
                 break
-            if c > 1:
-                problems.append(f"a submitted message was written {c} times (duplicated)")
+            if c > w:
+                problems.append(f"a message submitted {w} time(s) was written {c} times (duplicated)")
                 break
         for t, ds in want.items():
-            pos = [frames.index(d) for d in ds if d in frames]
+            # each submitter's messages appear in its submission order (a retransmitted message counts at each of its positions)
+            pos, used = [], {}
+            for d in ds:
+                start = used.get(d, -1) + 1
+                if d in frames[start:]:
+                    i = frames.index(d, start)
+                    used[d] = i
+                    pos.append(i)
             if pos != sorted(pos):
                 problems.append(f"messages of submitter {t} were written out of submission order")
         if isinstance(end, str) and end.startswith(("deadlock", "Step")):
@@ -556,9 +568,12 @@ def run_life(seed, role, cause, point, blocked_consumer, restart=True, hook=None
         consumer_result = []
         if point == "refused":
             # every other scenario lets the new state machine thread run while start() is still executing
-            n.start(refused=True, racing=(seed % 2 == 1))
+            # the connection attempt fails: refused, timed out, host or network unreachable
+            import errno as _errno
+            n.start(refused=True, racing=(seed % 2 == 1),
+                    refused_errno=[_errno.ECONNREFUSED, _errno.ETIMEDOUT, _errno.EHOSTUNREACH, _errno.ENETUNREACH][(seed // 2) % 4])
         else:
-            if point in ("open", "open-inbound", "open-outbound", "closing"):
+            if point in ("open", "open-inbound", "open-partial", "open-outbound", "closing"):
                 if not sc.open():
                     return "connection did not open", {"blocked": sc.s.describe_blocked()}
             else:
@@ -571,6 +586,9 @@ def run_life(seed, role, cause, point, blocked_consumer, restart=True, hook=None
             sc.run(until=lambda: cons.pending is not None and cons.pending[0] == "wait", limit=3000)
         if point == "open-inbound":
             n.feed(n.make("REQ", True, 1).dump() + n.make("REQ", True, 2).dump())
+        if point == "open-partial":
+            n.feed(n.make("REQ", True, 1).dump() + n.make("REQ", True, 2).dump()[:30])
+            sc.run(limit=300, timers=False)
         if point == "open-outbound":
             sc.s.spawn("sender", lambda: [n.d.send_message(app_request(i)) for i in range(3)])
         if point == "closing":
@@ -634,10 +652,18 @@ def run_life(seed, role, cause, point, blocked_consumer, restart=True, hook=None
                     problems.append(f"{nm} still held by finished thread {l.owner.name}")
         if restart and not problems:
             try:
-                n.start()
-                sc.run(until=lambda: n.state() != "Closed" or n.starter.done, limit=4000)
-                if n.starter.exc is not None:
-                    problems.append(f"second start() raised {type(n.starter.exc).__name__}: {n.starter.exc}")
+                # the same object is started again: the new connection must open and carry traffic like the first one
+                if not sc.open():
+                    problems.append(f"after a second start() the connection does not open (state {n.state()}"
+                                    + (f", start() raised {type(n.starter.exc).__name__}: {n.starter.exc}" if n.starter is not None and n.starter.exc else "") + ")")
+                else:
+                    m = n.make("REQ", True, 3)
+                    n.feed(m.dump())
+                    got2 = []
+                    c2 = sc.s.spawn("consumer9", lambda: got2.append(n.d.get_message()))
+                    sc.run(until=lambda: c2.done, limit=8000)
+                    if not c2.done or got2[0] is None or got2[0].dump() != m.dump():
+                        problems.append("on the second connection of the same object a message from the peer is not delivered intact")
             except BaseException as e:
                 problems.append(f"second start() failed: {type(e).__name__}: {e}")
         return ("; ".join(problems) if problems else None), {"end": end, "threads_ended_by_exception": dead}
